@@ -110,10 +110,12 @@ OBLIGATIONS = [
     dict(name="mds12_multiply_contract", crate="math+crypto", func=("mds_f64_12x12::mds_multiply", None), args=[("s", "[f64;12]")],
          pre=lambda a: [x < M64 for x in a.s], ub={"s": M64 - 1}, post=with_freq_pre(mds_post(MDS12, "both")), native="mds12.mul",
          summaries=freq_contract(MDS12), no_validate=True, inout=True, merge_diamonds=True, cross_sample=3,
+         native_check=lambda v, o: all(o[i] < M64 and (o[i] - sum(MDS12[i][j] * v[j] for j in range(12))) % M64 == 0 for i in range(12)),
          text="12x12 mds_multiply with mds_multiply_freq replaced by its contract (obligation mds12_freq): for all in-invariant states every output element is < M and congruent to its MDS row times the state (mod M); the contract's precondition (32-bit halves) holds at both call sites"),
     dict(name="mds8_multiply_contract", crate="math+crypto", func=("mds_f64_8x8::mds_multiply", None), args=[("s", "[f64;8]")],
          pre=lambda a: [x < M64 for x in a.s], ub={"s": M64 - 1}, post=with_freq_pre(mds_post(MDS8, "both")), native="mds8.mul",
          summaries=freq_contract(MDS8), no_validate=True, inout=True, merge_diamonds=True, cross_sample=3,
+         native_check=lambda v, o: all(o[i] < M64 and (o[i] - sum(MDS8[i][j] * v[j] for j in range(8))) % M64 == 0 for i in range(8)),
          text="8x8 mds_multiply (Jive hasher) with mds_multiply_freq replaced by its contract (obligation mds8_freq): every output element is < M and congruent to its MDS row times the state (mod M) for all in-invariant states"),
     dict(name="mds12_multiply_range_one_nonzero", crate="math+crypto", func=("mds_f64_12x12::mds_multiply", None), args=[("s", "[f64;12]")],
          pre=lambda a: [a.s[0] < M64] + [x == 0 for x in a.s[1:]], ub={"s": M64 - 1}, post=mds_post(MDS12, "range"), native="mds12.mul",
